@@ -6,6 +6,8 @@ import (
 	"fmt"
 	"reflect"
 	"strings"
+	"sync"
+	"sync/atomic"
 	"testing"
 
 	"go.opentelemetry.io/collector/component/componenttest"
@@ -516,10 +518,28 @@ func blankMetrics(md pmetric.Metrics) []byte {
 
 // ---------------------------------------------------------------- processor under test
 
+// collector receives the output of ONE call through the call's context (the instance's sink is
+// shared by concurrent calls).
+type collectorKey struct{}
+
+type collector struct {
+	out []byte
+}
+
+func newCollector(*instance) *collector { return &collector{} }
+func (c *collector) ctx() context.Context {
+	return context.WithValue(context.Background(), collectorKey{}, c)
+}
+func (c *collector) take() []byte { return c.out }
+
 type sinkT struct{ got []ptrace.Traces }
 
 func (s *sinkT) Capabilities() consumer.Capabilities { return consumer.Capabilities{} }
-func (s *sinkT) ConsumeTraces(_ context.Context, td ptrace.Traces) error {
+func (s *sinkT) ConsumeTraces(ctx context.Context, td ptrace.Traces) error {
+	if c, ok := ctx.Value(collectorKey{}).(*collector); ok {
+		c.out, _ = (&ptrace.ProtoMarshaler{}).MarshalTraces(td)
+		return nil
+	}
 	s.got = append(s.got, td)
 	return nil
 }
@@ -527,7 +547,11 @@ func (s *sinkT) ConsumeTraces(_ context.Context, td ptrace.Traces) error {
 type sinkL struct{ got []plog.Logs }
 
 func (s *sinkL) Capabilities() consumer.Capabilities { return consumer.Capabilities{} }
-func (s *sinkL) ConsumeLogs(_ context.Context, ld plog.Logs) error {
+func (s *sinkL) ConsumeLogs(ctx context.Context, ld plog.Logs) error {
+	if c, ok := ctx.Value(collectorKey{}).(*collector); ok {
+		c.out, _ = (&plog.ProtoMarshaler{}).MarshalLogs(ld)
+		return nil
+	}
 	s.got = append(s.got, ld)
 	return nil
 }
@@ -535,7 +559,11 @@ func (s *sinkL) ConsumeLogs(_ context.Context, ld plog.Logs) error {
 type sinkM struct{ got []pmetric.Metrics }
 
 func (s *sinkM) Capabilities() consumer.Capabilities { return consumer.Capabilities{} }
-func (s *sinkM) ConsumeMetrics(_ context.Context, md pmetric.Metrics) error {
+func (s *sinkM) ConsumeMetrics(ctx context.Context, md pmetric.Metrics) error {
+	if c, ok := ctx.Value(collectorKey{}).(*collector); ok {
+		c.out, _ = (&pmetric.ProtoMarshaler{}).MarshalMetrics(md)
+		return nil
+	}
 	s.got = append(s.got, md)
 	return nil
 }
@@ -728,6 +756,7 @@ func TestC17(t *testing.T) {
 			"thorough": {"documents": 25000, "substitution_pairs_observed": 400000, "max_distinct_originals_of_length_1_in_one_instance": 256, "max_distinct_originals_of_length_2_in_one_instance": 65536, "unlisted_attributes_present": 10000, "listed_attributes_present": 10000},
 		},
 		ExhaustiveLayers: []string{"onebyte (all 256 one-byte strings)", "twobyte (thorough: all 65,536 two-byte strings)"},
+		RaceIsViolation:  true,
 	})
 	e := r.Env
 	r.Layer("docs", e.Pick(900, 9000), func(c *vc.Case) {
@@ -792,6 +821,101 @@ func TestC17(t *testing.T) {
 			c.Nontrivial(true)
 		})
 	}
+	// one instance used from several goroutines at once (a collector pipeline does that): every
+	// document must come out byte-identical to what the SAME instance produced for it sequentially
+	// ("depends only on the original ... for the lifetime of the processor instance"), and the race
+	// detector must stay silent on repository frames
+	r.Layer("concurrent", e.Pick(12, 120), func(c *vc.Case) {
+		sig := c.Idx % 3
+		g := gen.New(c.R, gen.DAny)
+		mode := (c.Idx / 3) % 2
+		var list []string
+		if mode == 1 {
+			for _, k := range g.KeyPool() {
+				if c.R.IntN(2) == 0 && k != "" {
+					list = append(list, k)
+				}
+			}
+			if len(list) == 0 {
+				list = []string{"never-present"}
+			}
+		}
+		in, err := newInstance(sig, mode == 0, list)
+		if err != nil {
+			c.Inconclusive(err.Error())
+			return
+		}
+		const nDocs, nG, reps = 12, 8, 6
+		type doc struct {
+			t ptrace.Traces
+			l plog.Logs
+			m pmetric.Metrics
+		}
+		docs := make([]doc, nDocs)
+		for i := range docs {
+			g.ZeroBias = 0.3
+			switch sig {
+			case 0:
+				docs[i].t = g.Traces(6)
+			case 1:
+				docs[i].l = g.Logs(6)
+			default:
+				docs[i].m = g.Metrics(6, nil)
+			}
+		}
+		run := func(d doc, sk *collector) []byte {
+			switch sig {
+			case 0:
+				cp := ptrace.NewTraces()
+				d.t.CopyTo(cp)
+				_ = in.tp.ConsumeTraces(sk.ctx(), cp)
+			case 1:
+				cp := plog.NewLogs()
+				d.l.CopyTo(cp)
+				_ = in.lp.ConsumeLogs(sk.ctx(), cp)
+			default:
+				cp := pmetric.NewMetrics()
+				d.m.CopyTo(cp)
+				_ = in.mp.ConsumeMetrics(sk.ctx(), cp)
+			}
+			return sk.take()
+		}
+		// the instance's sinks are shared; results are routed back through the context
+		seq := make([][]byte, nDocs)
+		for i := range docs {
+			seq[i] = run(docs[i], newCollector(in))
+		}
+		var wg sync.WaitGroup
+		var diffs atomic.Int64
+		var first atomic.Value
+		start := make(chan struct{})
+		for gi := 0; gi < nG; gi++ {
+			wg.Add(1)
+			go func(gi int) {
+				defer wg.Done()
+				<-start
+				for rep := 0; rep < reps; rep++ {
+					for i := range docs {
+						k := (i + gi) % nDocs
+						out := run(docs[k], newCollector(in))
+						if !bytes.Equal(out, seq[k]) {
+							diffs.Add(1)
+							first.CompareAndSwap(nil, fmt.Sprintf("goroutine %d document %d: %d bytes vs %d bytes sequentially", gi, k, len(out), len(seq[k])))
+						}
+					}
+				}
+			}(gi)
+		}
+		close(start)
+		wg.Wait()
+		c.Count("concurrent_calls_compared_with_sequential_output", int64(nG*reps*nDocs))
+		if diffs.Load() > 0 {
+			c.Violation("output for a document differs when the same instance is used concurrently (substitute depends on scheduling)",
+				fmt.Sprintf("%d of %d concurrent calls differ from the instance's own sequential output; first: %v", diffs.Load(), nG*reps*nDocs, first.Load()), map[string]any{"mode_encrypt_all": mode == 0, "listed_keys": fmt.Sprint(list)})
+		}
+		c.FP("concurrent", fmt.Sprint(sig), fmt.Sprint(mode), fmt.Sprint(c.Idx))
+		c.Nontrivial(true)
+	})
 	// deterministic witness of the open known finding D16 (substitute key collides with an unlisted key)
 	r.Layer("collision-witness", 3, func(c *vc.Case) {
 		in, err := newInstance(c.Idx%3, false, []string{"a", "b"})
